@@ -15,18 +15,19 @@ import (
 )
 
 type Obligation struct {
-	Name    string
-	Func    string
-	Kind    string
-	NAssume int // prefix of Exec.assumes that may be used
-	PC      *Term
-	Goal    *Term
-	Text    string // source text of the clause / checked expression
-	Pos     string
-	Extra   []*Term // extra hypotheses (lemma uses)
-	exec    *Exec
-	Result  *SolveResult
-	Script  string
+	Name      string
+	Func      string
+	Kind      string
+	NAssume   int // prefix of Exec.assumes that may be used
+	PC        *Term
+	Goal      *Term
+	Text      string // source text of the clause / checked expression
+	Pos       string
+	Extra     []*Term // extra hypotheses (lemma uses)
+	exec      *Exec
+	Result    *SolveResult
+	Script    string
+	lemmaUses []string
 }
 
 type Exec struct {
